@@ -135,13 +135,16 @@ Section Res2.
     | O => (None, c)
     | S k => clip_once fmt (fun l c' => match def_lookup clips l with Some d' => clip_convert_in k clips d' bbox c' | None => (None, c') end) d bbox c
     end.
+  (* depth of a chain of linked definitions the model follows (the source stops at a recursive link; the model's documents have
+     no cycles and no chain longer than this) *)
+  Definition link_fuel : nat := 32.
   (* a definition without a link *)
   Definition mask_convert (d : def_info) (bbox : option qrect) (c : cache) : option string * cache := mask_once fmt (fun _ c' => (None, c')) d bbox c.
   Definition clip_convert (d : def_info) (bbox : option qrect) (c : cache) : option string * cache := clip_once fmt (fun _ c' => (None, c')) d bbox c.
   Definition res_mask_m {state : Type} (masks : defs_t) (link : string) (_ : state) (bbox : option qrect) (c : cache) : option string * cache :=
-    match def_lookup masks link with Some d => mask_convert_in (S (length masks)) masks d bbox c | None => (None, c) end.
+    match def_lookup masks link with Some d => mask_convert_in link_fuel masks d bbox c | None => (None, c) end.
   Definition res_clip_m {state : Type} (clips : defs_t) (link : string) (_ : state) (bbox : option qrect) (c : cache) : option string * cache :=
-    match def_lookup clips link with Some d => clip_convert_in (S (length clips)) clips d bbox c | None => (None, c) end.
+    match def_lookup clips link with Some d => clip_convert_in link_fuel clips d bbox c | None => (None, c) end.
 
   (* the skeleton with these resolvers; a group has an object bounding box iff its subtree contains a leaf (Group::
      calculate_object_bbox skips empty groups; a content-less group kept for its filter contributes a zero rectangle, which is
@@ -186,3 +189,16 @@ Definition not_a_def (id : string) : def_info :=
 Definition with_link (d : def_info) (l : string) (cacheable : bool) : def_info :=
   {| d_tag_ok := d_tag_ok d; d_id := d_id d; d_units_obb := d_units_obb d; d_content_obb := d_content_obb d; d_cacheable := cacheable;
      d_geom_ok := d_geom_ok d; d_link := Some l; d_content := d_content d |}.
+
+(* the clip-path / mask links a tree carries all lie in the sets Ac / Am *)
+Section Free.
+  Variables Ac Am : string -> bool.
+  Definition attrs_free (a : attrs) : bool :=
+    match a_clip a with Some l => Ac l | None => true end && match a_mask a with Some l => Am l | None => true end.
+  Fixpoint node_free (n : node) : bool :=
+    match n with Node _ a ch => attrs_free a && nodes_free ch end
+  with nodes_free (l : nodes) : bool :=
+    match l with NNil => true | NCons x r => node_free x && nodes_free r end.
+End Free.
+Definition not_key (k : string) (l : string) : bool := negb (String.eqb l k).
+Definition any_key (_ : string) : bool := true.
